@@ -140,6 +140,30 @@ def main(tier, seed):
             rep.counters["lookup.non-rows"] += 1
             if got is None or got >= 0:
                 rep.violation("lookup/non-row-found", {"label": core.b2s(nm)}, {"is_tld": got})
+    # every single-bit flip of every byte of every row, all 1-3 letter labels (thorough: 4), a dictionary of historic / pseudo TLDs:
+    # found iff the (ASCII-lower-cased) string is a CSV row, with that row's class
+    probes = set()
+    for nm in names:
+        for i in range(len(nm)):
+            for bit in range(8):
+                c = nm[i] ^ (1 << bit)
+                if c:
+                    probes.add(nm[:i] + bytes([c]) + nm[i + 1:])
+    import itertools, string
+    for n in range(1, 4 if tier == "quick" else 5):
+        for t in itertools.product(string.ascii_lowercase.encode(), repeat=n):
+            probes.add(bytes(t))
+    probes.update(x.encode() for x in HISTORIC)
+    probes = sorted(probes)
+    cmap = {w[0]: w[1] for w in want}
+    for part in core.pmap(_run, [(w_istld, (exe, probes[i:i + 20000])) for i in range(0, len(probes), 20000)]):
+        for nm, got in part.items():
+            rep.counters["lookup.probes"] += 1
+            wc = cmap.get(OD._lower_ascii(nm))
+            exp = mdl.class_number(wc) if wc else -mdl.E("TLD_INVALID")
+            if got != exp:
+                rep.violation("lookup/probe-%s" % ("found-but-not-in-csv" if wc is None else "wrong-answer"), {"label": core.b2s(nm), "hex": nm.hex()},
+                              {"is_tld": got, "csv_class": wc})
     # raw.csv U-label == Punycode-decode(punycode.csv A-label); tld-domains.txt line i == U.U
     tl = open(os.path.join(REPO, "data", "tld-domains.txt"), encoding="utf-8").read().split("\n")
     if tl and tl[-1] == "":
@@ -161,13 +185,25 @@ def main(tier, seed):
                     {"row": len(want) - 1, "domain": core.b2s(want[-1][0]), "class": want[-1][1]},
                     {"program": "util/gentld.pl", "exit": r1.returncode}, {"program": "util/gen_utf8_pass_test.pl", "exit": r2.returncode}]
     rep.assumptions += ["data/punycode.csv is the source of truth", "Text::CSV %s" % ("is provided by shim/perl (real module absent)" if shim else "real module")]
-    ev = lines_compared + len(live) + rep.counters["lookup.rows"] + rep.counters["lookup.non-rows"] + rep.counters["csv.pairs"]
+    ev = lines_compared + len(live) + rep.counters["lookup.rows"] + rep.counters["lookup.non-rows"] + rep.counters["csv.pairs"] + rep.counters["lookup.probes"]
     return rep.finish(ev, len(want) + len(non),
                       "both generator programs re-run on the shipped CSVs and diffed line by line against auto_tld.h, auto_tld.c "
                       "(timestamp masked) and tld-domains.txt; live table walk vs an independent CSV reading; is_tld on every row and "
                       "on near-miss/random non-rows; raw.csv vs Punycode-decoded punycode.csv; distinct = rows + non-row labels",
                       {"programs": programs, "disagreements_checked": disagreements, "lines_compared": lines_compared,
                        "builds": cx.builds_info()})
+
+
+HISTORIC = """bitnet csnet uucp nato arpa local localdomain lan home corp mail internal intranet private domain host exit i2p bit coin emc lib
+bazar free geek gopher indy ing micro neo null oss oz parody pirate dyn fur glue cs dd zr yu tp an um bu su eh bl mf gb eu oldtld root
+invalid test example localhost onion internet web www ftp smtp alt tor zkey gnu eth crypto nft dao wallet x y z xx xxx xxxx site1 tld
+belkin dlink dlinkrouter router modem gateway workgroup wpad local0 localnet lokal intern firma company office server servers
+""".split()
+
+
+def w_istld(exe, labels):
+    recs = driver.run_lines(exe, ["K " + driver.hx(l) for l in labels])
+    return {l: r for l, r in zip(labels, recs)}
 
 
 def w_lookup(exe, labels):
